@@ -33,7 +33,7 @@ def replay_bin(prof):
     return os.path.join(NATIVE_TARGET, prof, 'replay')
 
 
-RE_CHECK = re.compile(r'^Check (\d+): (\S+)\s*\n\s*- Status: (\w+)\s*\n\s*- Description: "(.*)"', re.M)
+RE_CHECK = re.compile(r'^Check (\d+): (.+?)[ \t]*\n\s*- Status: (\w+)\s*\n\s*- Description: "(.*)"', re.M)
 RE_STEPS = re.compile(r'size of program expression: (\d+) steps')
 RE_VCC = re.compile(r'Generated (\d+) VCC\(s\), (\d+) remaining after simplification')
 RE_VARS = re.compile(r'(\d+) variables, (\d+) clauses')
@@ -67,8 +67,8 @@ def run_harness(h, timeout, mem_gb=14):
     r['n_checks'] = len(checks)
     r['n_success'] = sum(1 for c in checks if c[2] == 'SUCCESS')
     r['n_unreachable'] = sum(1 for c in checks if c[2] == 'UNREACHABLE')
-    r['failed'] = [{'id': c[1], 'desc': c[3]} for c in checks if c[2] in ('FAILURE', 'UNDETERMINED')]
-    r['covers'] = [{'desc': c[3], 'status': c[2]} for c in checks if '.cover.' in c[1]]
+    r['failed'] = [{'id': c[1], 'desc': c[3].strip('"')} for c in checks if c[2] in ('FAILURE', 'UNDETERMINED')]
+    r['covers'] = [{'desc': c[3].strip('"'), 'status': c[2]} for c in checks if '.cover.' in c[1]]
     r['steps'] = sum(int(x) for x in RE_STEPS.findall(out))
     v = RE_VCC.findall(out)
     r['vccs'] = sum(int(a) for a, b in v)
@@ -80,7 +80,7 @@ def run_harness(h, timeout, mem_gb=14):
     r['decision_s'] = round(sum(float(x) for x in RE_DEC.findall(out)), 2)
     r['symex_s'] = round(sum(float(x) for x in RE_SYMEX.findall(out)), 2)
     r['sample_checks'] = [{'id': c[1], 'desc': c[3], 'status': c[2]} for c in checks if not c[3].startswith('unwinding') and 'smlverif' not in c[1]][:3] + \
-                         [{'id': c[1], 'desc': c[3], 'status': c[2]} for c in checks if c[3].startswith(('C0', 'C1'))][:4]
+                         [{'id': c[1], 'desc': c[3].strip('"'), 'status': c[2]} for c in checks if c[3].strip('"').startswith(('C0', 'C1'))][:4]
     if rc == 'timeout':
         r['status'] = 'inconclusive'; r['why'] = 'timeout after %ds' % timeout
     elif 'VERIFICATION:- SUCCESSFUL' in out:
@@ -93,7 +93,8 @@ def run_harness(h, timeout, mem_gb=14):
             r['status'] = 'inconclusive'; r['why'] = 'vacuous: reachability witness not satisfiable'
     elif 'VERIFICATION:- FAILED' in out and r['failed']:
         r['status'] = 'fail'
-        r['playback'] = parse_playback(out)
+        fd = set(f['desc'] for f in r['failed'])
+        r['playback'] = [(d, h) for (d, h) in parse_playback(out) if d.strip('"') in fd] or [(d, h) for (d, h) in parse_playback(out) if not d.strip('"').startswith(('reach:', 'witness'))]
     else:
         r['status'] = 'inconclusive'
         r['why'] = 'no verdict (rc=%s; out of memory / CBMC error?)' % rc
